@@ -384,10 +384,37 @@ def gen_method_unit(sc, sidecar_path, repo):
         reps = []
         world = sc.get('world')
         self_methods = sc.get('self_methods', [])
+        handles = sc.get('handles', [])
+        local_alias = {}
         def scan(ts):
             i = 0
             while i < len(ts):
                 t = ts[i]
+                if handles and t.is_id('let'):
+                    # `let A = self.F.clone();` for a listed handle field F: A is another handle on F (kept, rewritten to self_.F.clone())
+                    jh = rxprep.match_seq(ts, i, ['let', 'ident', '=', 'self', '.', 'ident', '.', 'clone', '()', ';'])
+                    if jh > 0 and ts[i + 5].text in handles:
+                        local_alias[ts[i + 1].text] = ts[i + 5].text
+                        reps.append((ts[i + 3].start, ts[i + 3].end, 'self_'))
+                        i = jh; continue
+                if handles and world and t.is_id('self'):
+                    # R13 (connect idiom) on a field: `self.G.subscribe(<three plain forwarders to clones of self.F>)`
+                    js = rxprep.match_seq(ts, i, ['self', '.', 'ident', '.', 'subscribe', '(…)'])
+                    if js > 0 and ts[i + 2].text in handles:
+                        g = ts[js - 1]
+                        parts = rxprep.split_commas(g.kids)
+                        if parts and not parts[-1]:
+                            parts = parts[:-1]
+                        names = []
+                        if len(parts) == 3:
+                            for part, pat in zip(parts, rxprep.FORWARDERS):
+                                m_ = re.fullmatch(pat, re.sub(r'\s+', '', src[part[0].start:part[-1].end]))
+                                names.append(m_.group(m_.lastindex) if m_ else None)
+                        targets = set(local_alias.get(n) for n in names) if names and all(names) else set()
+                        if len(targets) != 1 or None in targets:
+                            raise UnitError('not_extractable', '%s::%s: subscribe(..) whose three callbacks are not plain forwarders to clones of one handle field' % (sc['impl'], m['fn']))
+                        reps.append((t.start, g.end, 'self_.%s.subscribe_forwarding_to(&self_.%s, world)' % (ts[i + 2].text, targets.pop())))
+                        i = js; continue
                 if world and t.is_p('.'):
                     # R10: `.iter().for_each(|v| { v.1.call(()); })`  ->  `.for_each_call_in(world)`   (exact idiom only)
                     j10 = rxprep.match_seq(ts, i, ['.', 'iter', '()', '.', 'for_each', '(…)'])
@@ -416,6 +443,11 @@ def gen_method_unit(sc, sidecar_path, repo):
                         reps.append((t.start, ts[i + 4].end, 'self_.%s__%s' % (ts[i + 2].text, ts[i + 4].text)))
                         if world:   # the flattened field's methods may re-enter this type (teardown): they get the world log too
                             reps.append((ts[i + 5].start, ts[i + 5].start + 1, '(world, ' if ts[i + 5].kids else '(world'))
+                        scan(ts[i + 5].kids)
+                        i = jf; continue
+                    if jf > 0 and ts[i + 2].text in handles:
+                        # a method of a listed handle field is a method of its model (no effect on the other fields)
+                        reps.append((t.start, t.end, 'self_'))
                         scan(ts[i + 5].kids)
                         i = jf; continue
                     jm = rxprep.match_seq(ts, i, ['self', '.', 'ident', '(…)'])
